@@ -10,6 +10,16 @@ import Mdsort.Gen.Tables
 delimiter line twice (once as the end of a part, once as the start of the next);
 here it is one step per part.  Recursion depth is bounded by the generated
 `Gen.mimeDepthLimit` (`depth > 4` is an error), which is the fuel.
+
+`findboundary` compares bytes, not lines: after a failed comparison at `beg` it
+goes on with `skipline` from the byte AFTER the text it compared (`"--"`,
+`"--" boundary`, `"--" boundary "--"`), not from `beg`.  `findBoundaryAux`
+transcribes exactly that (structural recursion over the text, with the number of
+bytes up to the next line examined).  For a boundary without a newline this is
+the same as examining every line; a boundary with a newline (the Content-Type
+value is RFC 2047-decoded first, `boundary="=?UTF-8?Q?a=0A?="`) makes the
+difference, and the index-level transcription `Model/L0/Mime.lean` refines this
+model for every boundary (`C07_L0_refines_mime_scanners`).
 -/
 
 namespace Mdsort.Model
@@ -72,17 +82,42 @@ def delimiterLine (bnd : Bytes) (s : Bytes) : Option Bool :=
       | 10 :: _ => some term
       | _ => none
 
-/-- `findboundary(boundary, s, &term)` for `s` at the beginning of a line:
-the text before the delimiter line, the terminator flag, and the text from the
-delimiter line on. -/
-def findBoundaryAux (bnd : Bytes) : Bytes → Bool → Option (Bytes × Bool × Bytes)
-  | [], _ => none
-  | c :: r, atLineStart =>
-    match (if atLineStart then delimiterLine bnd (c :: r) else none) with
-    | some term => some ([], term, c :: r)
-    | none => (findBoundaryAux bnd r (c == 10)).map fun (pre, t, rest) => (c :: pre, t, rest)
+/-- One round of the `for (;;)` of `findboundary` with `beg = s` that does not
+`return beg`: the text `s` points at when `continue` is executed, or when the end
+of the loop body is reached with `*s != '\n'`.  The comparisons advance `s`, and
+the next round resumes from there - NOT from `beg`. -/
+def continueAt (bnd : Bytes) (s : Bytes) : Bytes :=
+  if !startsWith s [45, 45] then s                         -- strncmp(s, "--", 2) != 0: continue
+  else
+    let s1 := s.drop 2                                     -- s += 2
+    if !startsWith s1 bnd then s1                          -- strncmp(s, boundary, len) != 0: continue
+    else
+      let s2 := s1.drop bnd.length                         -- s += len
+      if startsWith s2 [45, 45] then s2.drop 2 else s2     -- "--": s += 2, *term = 1; then *s != '\n'
 
-def findBoundary (bnd : Bytes) (s : Bytes) : Option (Bytes × Bool × Bytes) := findBoundaryAux bnd s true
+/-- Number of bytes from `beg = s` to the line the next round of the loop examines:
+`continue` (at `continueAt bnd s`), then `if (skip) s = skipline(s)`. -/
+def nextLineDist (bnd : Bytes) (s : Bytes) : Nat := s.length - (skipLine (continueAt bnd s)).length
+
+/-- The `for (;;)` of `findboundary(boundary, s, &term)`: the text before the
+delimiter line found, the terminator flag, and the text from the delimiter line
+on; `none` is NULL.  The second argument is the number of bytes up to the next
+line the loop examines (`beg`); 0 when `s` itself is examined.  A line is compared
+with `"--" boundary ["--"] "\n"` (`delimiterLine`); if that fails the loop goes on
+with `skipline` from the byte after the text it compared (`nextLineDist`), so a
+line that begins inside the compared text - possible only when the boundary
+contains a newline - is never examined. -/
+def findBoundaryAux (bnd : Bytes) : Bytes → Nat → Option (Bytes × Bool × Bytes)
+  | [], _ => none                                          -- *s == '\0': break, return NULL
+  | c :: r, n + 1 => (findBoundaryAux bnd r n).map fun (pre, t, rest) => (c :: pre, t, rest)
+  | c :: r, 0 =>
+    match delimiterLine bnd (c :: r) with
+    | some term => some ([], term, c :: r)                 -- return beg
+    | none =>
+      (findBoundaryAux bnd r (nextLineDist bnd (c :: r) - 1)).map fun (pre, t, rest) => (c :: pre, t, rest)
+
+/-- `findboundary(boundary, s, &term)`: `skip = 0`, the text at `s` is examined first. -/
+def findBoundary (bnd : Bytes) (s : Bytes) : Option (Bytes × Bool × Bytes) := findBoundaryAux bnd s 0
 
 /-- One step per part of the `while (!term)` loop, after the opening delimiter.
 `sub` is `parseattachments(attach, parent, depth + 1)`; `fuel` bounds the number
